@@ -40,8 +40,14 @@ KINDS = [k for k in gp.ALL_KINDS if k not in ('package_fn',)] + DISCARD * 3 + ['
 
 @st.composite
 def cases_(draw):
-    pkg = draw(gp.input_package(1, 3, sizes=(0, 0, 0, 1, 2, 3, 4, 5, 9, 10, 12, 14, 30, 101), types=['string', 'integer', 'number', 'date', 'boolean']))
-    prog = draw(gp.programs(1, 6, kinds=KINDS, pkg=pkg, favour_mutators=False))
+    if gen.rare(draw, 70):
+        # focused class: a join whose source resource is empty (nothing to index), observers in front of it
+        pkg = draw(gp.input_package(2, 3, sizes=(1, 3, 5), types=['string', 'integer', 'number']))
+        pkg[0]['rows'] = []
+        prog = draw(gp.programs(1, 3, kinds=['join', 'join', 'filter_rows', 'join'], pkg=pkg, favour_mutators=False))
+    else:
+        pkg = draw(gp.input_package(1, 3, sizes=(0, 0, 0, 1, 2, 3, 4, 5, 9, 10, 12, 14, 30, 101), types=['string', 'integer', 'number', 'date', 'boolean']))
+        prog = draw(gp.programs(1, 6, kinds=KINDS, pkg=pkg, favour_mutators=False))
     steps = prog['steps']
     for s in steps:
         if s['k'] == 'rows_fn' and draw(st.booleans()):
